@@ -12,6 +12,7 @@ Line protocol (one op per line):
                | e (#else) | x (#endif) | r<num> (region) | m<hex> (#define)
      -> "C <cfg>,<cfg>,... | L <r.r.r>/<r.r>/..."    configurations in set order; per configuration the
         regions that are live in it ("-" = none); "L ?" when the list is not a well nested tree
+  reach <ud> <undefs> <dir>*                      regions some configuration consistent with -D / -U contains -> "R r.r.r"
   safe <fe><fn> <dir>*                            the decidable class of Model/Configs.lean   -> "S 0|1|?"
   sel <force> <maxopt> <maxproj> <ud> <cfg>,<cfg>,...   selection loop of checkInternal
      -> "M <maxConfigs> | A <currentConfig>,..."
@@ -56,6 +57,15 @@ def step (line : String) : String :=
       let cs := getConfigsWith flags inp ds
       s!"C {cfgsStr cs} | L {liveStr inp cs ds}"
     | _, _, _, _ => "bad-op"
+  | "reach" :: ud :: undefs :: dirs =>
+    match fromHex ud, parseList undefs, dirs.mapM parseDir with
+    | some ud, some undefs, some ds =>
+      match parseTree ds with
+      | some t =>
+        let pos := ((pieces ud).map nameOf).filter fun x => !undefs.contains x
+        s!"R {natsStr ((t.reach pos undefs).foldr insertNat [])}"
+      | none => "R ?"
+    | _, _, _ => "bad-op"
   | "safe" :: fl :: dirs =>
     match dirs.mapM parseDir with
     | some ds =>
